@@ -392,11 +392,16 @@ func faultThroughReflect(stderr string) bool {
 }
 
 func classifyDeath(stderr string) outcome {
+	// the line that names the fault: the runtime prints its own diagnostics ("runtime: nameOff ... not in
+	// ranges") BEFORE the "fatal error:" line, so a panic / fatal error line anywhere wins over a "runtime:" line
 	first := ""
 	for _, l := range strings.Split(stderr, "\n") {
-		if strings.HasPrefix(l, "panic:") || strings.HasPrefix(l, "fatal error:") || strings.HasPrefix(l, "runtime:") {
+		if strings.HasPrefix(l, "panic:") || strings.HasPrefix(l, "fatal error:") {
 			first = l
 			break
+		}
+		if first == "" && strings.HasPrefix(l, "runtime:") {
+			first = l
 		}
 	}
 	switch {
